@@ -18,6 +18,8 @@ package blobstore
 
 //@ func (*blobAccessMutableProtoHandle[T, TProto]).Release
 //@   props C07
+//@   requires sh.store != nil && sh.useCount >= 1
+//@   requires handles-in-use-are-not-queued: sh.handlesToWriteIndex < 0
 //@   assume sh.currentVersion < MaxInt64 -- a handle is not released dirty 2^63 times
 //@   ensures dirty-release-makes-a-newer-version: isDirty ==> sh.currentVersion > old(sh.currentVersion)
 //@   ensures clean-release-keeps-version: !isDirty ==> sh.currentVersion == old(sh.currentVersion)
